@@ -19,6 +19,24 @@ UNITS = [
          kind="bounded", bound="two decoder handles, one allocation each",
          what="two decoder instances: tearing down one does not free, and does not leave dangling, the other's allocations"),
 ]
+from units.c14 import RC as RC14, TRUST as TRUST14
+GENST = ("python3 {verif}/engine/gen_statics.py {repo}/Source/Lib/Encoder/Globals/EbEncHandle.c {udir}/statics_EbEncHandle.h "
+         "-D__linux__ -DARCH_X86_64=1")
+for _uid, _entry, _def, _fns in [
+    ("U17.2.frame_set_parameter", "h_set_parameter", "U14_SET_PARAMETER", ["svt_av1_enc_set_parameter"]),
+    ("U17.2.frame_stream_header", "h_stream_header", "U14_STREAM_HEADER", ["svt_av1_enc_stream_header", "svt_av1_enc_stream_header_release"]),
+    ("U17.2.frame_send_picture", "h_send_picture", "U14_SEND_PICTURE", ["svt_av1_enc_send_picture"]),
+    ("U17.2.frame_get_packet", "h_get_packet", "U14_GET_PACKET", ["svt_av1_enc_get_packet", "svt_av1_enc_release_out_buffer"]),
+    ("U17.2.frame_get_recon", "h_get_recon", "U14_GET_RECON", ["svt_av1_get_recon"]),
+]:
+    UNITS.append(Unit(uid=_uid, prop="C17", harness="harness/c14_enc.c", entry=_entry, functions=_fns, mode="plain",
+                      defines=[_def, "U17_FRAME"], pre_cmds=[GENST], replace_calls=RC14, keep_bodies=_fns, canaries=1,
+                      min_obligations=20, unwind=140, cover_functions=[], trusted=TRUST14, timeout=600,
+                      remove_bodies=["svt_enc_handle_dctor"],
+                      what="frame of the per-instance entry point: its own body writes NO file-scope object of EbEncHandle.c "
+                           "(process-count port tables, processor-group state; list generated from the file on every run), "
+                           "so a call on one instance cannot change what another instance reads from them",
+                      assumptions=["the frame is that of the entry point's own body: callees are the stubs of the C14 units"]))
 META = {"C17": {
     "level": "proof",
     "explanation": "Sequential non-interference only: initialisers of process-global tables are functions of their "
@@ -27,5 +45,8 @@ META = {"C17": {
                    "decoder teardown unit (known finding: shared allocation list). Data races are outside sequential "
                    "contracts.",
     "not_covered": ["interleavings / races between instances", "block-geometry tables and dispatch pointers rebuilt from "
-                    "a second instance's SB size / CPU flags (F8: argument-dependent globals, observed by reading, no unit)"],
+                    "a second instance's SB size / CPU flags (F8: argument-dependent globals, observed by reading, no unit)",
+                    "prediction_structure_group_ctor's copy-then-trim of the shared default tables (seed C17-m1): tried as a "
+                    "frame unit three ways (byte snapshot, dfcc assigns clause, typed pool allocator) - the constructor's "
+                    "untyped calloc'd tables + memcpy did not finish in 15 min / 16 GB for even one preset; dropped"],
 }}
